@@ -64,10 +64,15 @@ pub(crate) fn format(src: &str, path: &Path) -> String {
     let src_after_spans = apply_span_edits(src, &mut visitor.span_edits);
 
     // Phase 5: Apply indentation edits
-    let src_after_indent = apply_indentation_edits(&src_after_spans, &visitor.line_edits);
+    let src_after_indent =
+        apply_indentation_edits(&src_after_spans, &visitor.line_edits, &vfs_path);
 
     // Phase 6: Normalize blank lines
-    let src_after_blanks = normalize_blank_lines(&src_after_indent, &visitor.toplevel_start_lines);
+    let src_after_blanks = normalize_blank_lines(
+        &src_after_indent,
+        &visitor.toplevel_start_lines,
+        &vfs_path,
+    );
 
     // Phase 7: Fix type annotation spacing
     let src_after_types = fix_type_annotation_spacing(&src_after_blanks, &vfs_path);
@@ -85,6 +90,26 @@ pub(crate) fn format(src: &str, path: &Path) -> String {
     }
 
     result
+}
+
+/// The (zero-based) numbers of the lines that start inside a string
+/// literal spanning several lines. Such lines are part of the
+/// string's contents, so the line-based phases must leave them
+/// exactly as they are.
+fn lines_inside_strings(src: &str, vfs_path: &crate::parser::vfs::VfsPathBuf) -> FxHashSet<usize> {
+    let (mut token_stream, _) = lex_between(vfs_path, src, 0, src.len());
+
+    let mut lines = FxHashSet::default();
+    while let Some(token) = token_stream.pop() {
+        let pos = &token.position;
+        if token.text.starts_with('"') && pos.end_line_number > pos.line_number {
+            for line in (pos.line_number + 1)..=pos.end_line_number {
+                lines.insert(line);
+            }
+        }
+    }
+
+    lines
 }
 
 /// Represents an indentation edit for a specific line.
@@ -684,9 +709,14 @@ fn collect_comment_edits(
 }
 
 /// Apply indentation edits to the source while preserving blank lines.
-fn apply_indentation_edits(src: &str, line_edits: &[LineEdit]) -> String {
+fn apply_indentation_edits(
+    src: &str,
+    line_edits: &[LineEdit],
+    vfs_path: &crate::parser::vfs::VfsPathBuf,
+) -> String {
     let lines: Vec<&str> = src.lines().collect();
     let mut result = String::with_capacity(src.len());
+    let string_lines = lines_inside_strings(src, vfs_path);
 
     // Create a map for O(1) lookup
     let mut edits_map: FxHashMap<usize, &LineEdit> = FxHashMap::default();
@@ -695,7 +725,10 @@ fn apply_indentation_edits(src: &str, line_edits: &[LineEdit]) -> String {
     }
 
     for (line_num, line) in lines.iter().enumerate() {
-        if let Some(edit) = edits_map.get(&line_num) {
+        if string_lines.contains(&line_num) {
+            // Keep string contents unchanged
+            result.push_str(line);
+        } else if let Some(edit) = edits_map.get(&line_num) {
             // Strip existing indentation and add correct amount
             let trimmed = line.trim_start();
 
@@ -751,7 +784,12 @@ fn apply_span_edits(src: &str, span_edits: &mut [SpanEdit]) -> String {
 ///
 /// - Before non-import toplevel definitions: exactly one blank line
 /// - Inside blocks: at most one blank line between lines
-fn normalize_blank_lines(src: &str, toplevel_start_lines: &[usize]) -> String {
+fn normalize_blank_lines(
+    src: &str,
+    toplevel_start_lines: &[usize],
+    vfs_path: &crate::parser::vfs::VfsPathBuf,
+) -> String {
+    let string_lines = lines_inside_strings(src, vfs_path);
     let lines: Vec<&str> = src.lines().collect();
     if lines.is_empty() {
         return src.to_owned();
@@ -764,10 +802,10 @@ fn normalize_blank_lines(src: &str, toplevel_start_lines: &[usize]) -> String {
     while i < lines.len() {
         let line = lines[i];
 
-        // If this line is blank
-        if line.trim().is_empty() {
+        // If this line is blank (and not a blank line inside a string literal)
+        if line.trim().is_empty() && !string_lines.contains(&i) {
             // Count consecutive blank lines
-            while i < lines.len() && lines[i].trim().is_empty() {
+            while i < lines.len() && lines[i].trim().is_empty() && !string_lines.contains(&i) {
                 i += 1;
             }
 
@@ -791,6 +829,7 @@ fn normalize_blank_lines(src: &str, toplevel_start_lines: &[usize]) -> String {
         if i < lines.len()
             && !lines[i].trim().is_empty()
             && toplevel_lines.contains(&i)
+            && !string_lines.contains(&i)
             && !line.trim_start().starts_with("//")
         {
             // Next non-blank line is a toplevel definition, but there's no blank line
